@@ -139,6 +139,8 @@ def renderable(funcs):
                     return False
                 if _task_target(fl, d) and (nin == 0 or nout == 0):
                     return False
+                if d['g'] == 'u' and _task_target(fl, d) and (d['a'] > 0) != (d['b'] > 0):
+                    return False       # `-> [i = ..] X T(i)`: the GLR parser reports an ambiguity
     return len(funcs) > 0
 
 
@@ -173,13 +175,691 @@ def run_ptgpp(exe, jdf, outbase, flags=(), timeout=60, env=None):
 _cc_inc = {}
 
 
-def cc_syntax(build, cfile, timeout=120):
-    """`gcc -fsyntax-only` on emitted C with the include paths of pv.cc_harness.  Returns (ok, stderr)."""
+def cc_prepare(build):
+    """(call once from the main thread: pv.mpi_flags is not re-entrant)"""
     if build not in _cc_inc:
         mc, _ = pv.mpi_flags()
         _cc_inc[build] = ['-I' + pv.REPO, '-I' + os.path.join(pv.REPO, 'parsec', 'include'), '-I' + build,
                           '-I' + os.path.join(build, 'parsec', 'include')] + mc
+
+
+def cc_syntax(build, cfile, timeout=120):
+    """`gcc -fsyntax-only` on emitted C with the include paths of pv.cc_harness.  Returns (ok, stderr)."""
+    cc_prepare(build)
     cfile = os.path.abspath(cfile)
-    cmd = ['gcc', '-fsyntax-only', '-w', '-I' + os.path.dirname(cfile)] + _cc_inc[build] + [cfile]
+    cmd = ['gcc', '-fsyntax-only', '-I' + os.path.dirname(cfile)] + _cc_inc[build] + [cfile]
     rc, out, err = pv.sh(cmd, timeout=timeout)
     return rc == 0, err
+
+
+# ------------------------------------------------------------------ grammar-based generator of whole programs
+PARAM_NAMES = ['k', 'm', 'n']
+FLOW_NAMES = ['X', 'Y', 'Z', 'V', 'W', 'U']
+
+
+class _Gen:
+    """Builds a random valid JDF program: 1-3 task classes, 1-3 parameters each (ranges on globals, steps, derived
+    locals, inline C), data flows linked by self chains and pipes between classes (every reference has its
+    counterpart), control flows (chains, gathers), NEW/NULL inputs, guarded/ternary/unconditional dependencies,
+    ranges and local definitions in output dependencies, priorities, task properties, hidden globals, comments."""
+
+    def __init__(self, rng):
+        self.r = rng
+        self.feat = set()
+
+    def atom(self, scope, depth=0):
+        r = self.r
+        c = r.below(10)
+        if c < 5 and scope:
+            return r.choice(scope)
+        if c < 7:
+            return str(r.below(4))
+        if c < 8:
+            return r.choice(['NT', 'MT'])
+        if c < 9 and scope and depth < 2:
+            self.feat.add('inline_c')
+            return '%%{ return %s + %d; %%}' % (r.choice(scope), r.below(3))
+        return '(%s)' % self.expr(scope, depth + 1)
+
+    def expr(self, scope, depth=0):
+        r = self.r
+        if depth >= 2 or r.chance(1, 2):
+            return self.atom(scope, depth)
+        op = r.choice(['+', '-', '*', '+', '-', '/', '%', '<<', '>>'])
+        a, b = self.atom(scope, depth + 1), self.atom(scope, depth + 1)
+        if op in ('/', '%'):
+            b = str(r.range(1, 3))
+        if op in ('<<', '>>'):
+            b = str(r.below(3))
+        return '%s %s %s' % (a, op, b)
+
+    def cond(self, scope):
+        r = self.r
+        c = r.below(8)
+        a = self.expr(scope, 1)
+        if c < 5:
+            return '(%s %s %s)' % (a, r.choice(['==', '!=', '<', '<=', '>', '>=']), self.expr(scope, 1))
+        if c < 6:
+            return '((%s == 0) %s (%s < NT))' % (a, r.choice(['&&', '||', '&', '|', '^']), self.expr(scope, 1))
+        if c < 7:
+            return '(!(%s == %d))' % (a, r.below(3))
+        self.feat.add('inline_c_guard')
+        return '%%{ return %s == %d; %%}' % (r.choice(scope) if scope else '0', r.below(3))
+
+    def program(self):
+        r = self.r
+        nT = r.choice([1, 1, 2, 2, 3])
+        classes = []
+        for j in range(nT):
+            np_ = r.choice([1, 1, 2, 2, 3])
+            params = PARAM_NAMES[:np_]
+            locs = []          # (name, text)
+            scope = []
+            for p in params:
+                c = r.below(6)
+                lo = '0' if not scope or r.chance(2, 3) else r.choice(scope)
+                hi = r.choice(['NT', 'MT', 'NT-1', 'MT - 1'] + (['%s + 2' % scope[-1]] if scope else []))
+                if c == 0:
+                    self.feat.add('range_step')
+                    locs.append((p, '%s .. %s .. %d' % (lo, hi, r.range(1, 3))))
+                elif c == 1 and scope:
+                    self.feat.add('range_inline_c')
+                    locs.append((p, '%s .. %%{ return %s + 1; %%}' % (lo, scope[-1])))
+                else:
+                    locs.append((p, '%s .. %s' % (lo, hi)))
+                scope.append(p)
+                if r.chance(1, 4):
+                    dn = 'd%d' % len(locs)
+                    self.feat.add('derived_local')
+                    locs.append((dn, self.expr(scope)))
+                    scope.append(dn)
+            nfl = r.choice([1, 2, 2, 3, 4])
+            flows = []
+            for i in range(nfl):
+                acc = r.choice(['x', 'x', 'x', 'r', 'r', 'w', 'c'])
+                flows.append({'name': FLOW_NAMES[i], 'acc': acc, 'in': [], 'out': []})
+            classes.append({'name': 'T%d' % j if r.chance(1, 2) else ['POTRF', 'GEMM', 'bcast'][j], 'params': params, 'locals': locs, 'scope': scope,
+                            'flows': flows, 'props': [], 'prio': None})
+        self.classes = classes
+        # links
+        for cj, c in enumerate(classes):
+            for fl in c['flows']:
+                self.link_flow(c, fl)
+        for c in classes:
+            self.cur = c
+            c['part'] = 'A(%s, %s)' % (self.expr(c['scope'], 1), self.expr(c['scope'], 1))
+            for fl in c['flows']:
+                self.fix_flow(c, fl)
+            if r.chance(1, 4):
+                self.feat.add('priority')
+                c['prio'] = self.expr(c['scope'])
+            if r.chance(1, 4):
+                self.feat.add('task_props')
+                c['props'] = r.choice([['high_priority = on'], ['profile = off'], ['high_priority = on', 'profile = off'], ['count_deps = on']])
+        return self.text()
+
+    def data_ref(self, scope):
+        if self.strict:     # no "potential direct remote memory reference" warning: same text as the partitioning
+            return self.cur['part']
+        return '%s(%s, %s)' % (self.r.choice(self.datas), self.expr(scope, 1), self.expr(scope, 1))
+
+    def args(self, target, scope, ranged=False):
+        out = []
+        used_range = False
+        for p in target['params']:
+            if ranged and not used_range and self.r.chance(1, 2):
+                used_range = True
+                self.feat.add('range_in_out_dep')
+                out.append('%s .. %s' % (self.expr(scope, 1), self.expr(scope, 1)))
+            else:
+                out.append(self.expr(scope, 1))
+        return ', '.join(out)
+
+    def link_flow(self, c, fl):
+        """add a few dependencies to flow fl of class c, together with their counterparts"""
+        r = self.r
+        kind = 'ctl' if fl['acc'] == 'c' else 'data'
+        cands = [(d, g) for d in self.classes for g in d['flows'] if (('ctl' if g['acc'] == 'c' else 'data') == kind)]
+        n = r.choice([0, 1, 1, 2, 3])
+        for _ in range(n):
+            d, g = r.choice(cands)
+            # c.fl -> d.g   (d.g <- c.fl), unless g is WRITE (its inputs must be NEW)
+            if g['acc'] == 'w':
+                continue
+            ld = ''
+            scope = list(c['scope'])
+            if r.chance(1, 5):
+                self.feat.add('ldef_out_dep')
+                v = 'i%d' % len(fl['out'])
+                ld = '[ %s = 0 .. %d ] ' % (v, r.range(1, 2))
+                scope.append(v)
+            guard = self.cond(c['scope']) if (ld or r.chance(3, 4)) else None   # `-> [i = ..] X T(i)` alone is ambiguous for the GLR parser
+            fl['out'].append({'task': True, 'guard': guard, 'ld': ld, 't': '%s %s(%s)' % (g['name'], d['name'], self.args(d, scope, ranged=True)), 'f': None})
+            gin = self.cond(d['scope']) if r.chance(3, 4) else None
+            gather = kind == 'ctl' and r.chance(1, 3)
+            if gather:
+                self.feat.add('ctl_gather')
+            g['in'].append({'guard': gin, 'ld': '', 't': '%s %s(%s)' % (fl['name'], c['name'], self.args(c, d['scope'], ranged=gather)), 'f': None})
+        self.feat.add('pipe' if n else 'nopipe')
+
+    def fix_flow(self, c, fl):
+        """complete the flow so that it is valid: inputs for READ/RW, data endpoints, NEW/NULL, ternaries"""
+        r = self.r
+        acc = fl['acc']
+        scope = c['scope']
+        if acc == 'c':
+            return
+        if acc == 'w':
+            # inputs of a WRITE flow: only `<- NEW`
+            fl['in'] = []
+            if r.chance(1, 2):
+                self.feat.add('write_new')
+                fl['in'].append({'guard': None, 'ld': '', 't': 'NEW', 'f': None})
+            if not fl['out'] or r.chance(1, 2):
+                fl['out'].append({'guard': self.cond(scope) if r.chance(1, 2) else None, 'ld': '', 't': self.data_ref(scope), 'f': None})
+            return
+        # READ / RW: guarded task inputs first, then a closing input
+        for d in fl['in']:
+            if d['guard'] is None:
+                d['guard'] = self.cond(scope)
+        c_ = r.below(6)
+        if c_ < 3:
+            fl['in'].append({'guard': None, 'ld': '', 't': self.data_ref(scope), 'f': None})
+        elif c_ < 4:
+            self.feat.add('null_input')
+            fl['in'].append({'guard': None, 'ld': '', 't': 'NULL', 'f': None})
+        elif c_ < 5:
+            self.feat.add('new_input')      # an unguarded `<- NEW` is reserved to WRITE flows
+            fl['in'].append({'guard': self.cond(scope), 'ld': '', 't': 'NEW', 'f': None})
+            fl['in'].append({'guard': None, 'ld': '', 't': self.data_ref(scope), 'f': None})
+        else:
+            self.feat.add('ternary_in')
+            fl['in'].append({'guard': self.cond(scope), 'ld': '', 't': self.data_ref(scope), 'f': r.choice(['NEW', 'NULL'])})
+        if acc == 'x' and (not fl['out'] or r.chance(1, 2)):
+            fl['out'].append({'guard': self.cond(scope) if r.chance(2, 3) else None, 'ld': '', 't': self.data_ref(scope), 'f': None})
+        # turn one guarded task output into a ternary with a data reference
+        outs = [d for d in fl['out'] if d['guard'] and d.get('task') and d['f'] is None and not d['ld']]
+        if outs and acc == 'x' and r.chance(1, 3):
+            self.feat.add('ternary_out')
+            r.choice(outs)['f'] = self.data_ref(scope)
+
+    def dep_text(self, arrow, d):
+        s = d['ld']
+        if d['guard'] is None:
+            return '%s %s%s' % (arrow, s, d['t'])
+        if d['f'] is None:
+            return '%s %s%s ? %s' % (arrow, s, d['guard'], d['t'])
+        return '%s %s%s ? %s : %s' % (arrow, s, d['guard'], d['t'], d['f'])
+
+    def text(self):
+        r = self.r
+        o = ['extern "C" %{', '/* generated */', '#include "parsec.h"', '#include <stdio.h>', '%}', '']
+        o += ['A   [type = "parsec_data_collection_t*"]']
+        if 'B' in self.datas:
+            o += ['B   [type = "parsec_data_collection_t*" aligned = A]' if r.chance(1, 2) else 'B   [type = "parsec_data_collection_t*"]']
+        o += ['NT  [type = int]']
+        if r.chance(1, 2):
+            self.feat.add('hidden_global')
+            o += ['MT  [type = int hidden = on default = "NT + 1"]' if r.chance(1, 2) else 'MT  [type = int hidden = on default = 3]']
+        else:
+            o += ['MT  [type = int]']
+        o.append('')
+        for c in self.classes:
+            if r.chance(1, 3):
+                self.feat.add('comments')
+                o.append('/* task class %s */' % c['name'])
+            o.append('%s(%s)%s' % (c['name'], ', '.join(c['params']), (' [ ' + ' '.join(c['props']) + ' ]') if c['props'] else ''))
+            for n, t in c['locals']:
+                o.append('  %s = %s%s' % (n, t, '  // local' if r.chance(1, 8) else ''))
+            o.append('')
+            o.append(': ' + c['part'])
+            o.append('')
+            for fl in c['flows']:
+                head = '  %-5s %s ' % (r.choice({'c': ['CTL'], 'r': ['READ', 'RO'], 'w': ['WRITE', 'WO'], 'x': ['RW', 'RW', '']}[fl['acc']]), fl['name'])
+                lines = [self.dep_text('<-', d) for d in fl['in']] + [self.dep_text('->', d) for d in fl['out']]
+                o.append(head + ('\n' + ' ' * len(head)).join(lines))
+            if c['prio'] is not None:
+                o.append('')
+                o.append('; %s' % c['prio'])
+            o.append('')
+            o.append('BODY')
+            o.append('{')
+            for fl in c['flows']:
+                if fl['acc'] != 'c':
+                    o.append('    (void)%s;' % fl['name'])
+            o.append('    printf("%s(%s)\\n"%s);' % (c['name'], ', '.join(['%d'] * len(c['params'])), ''.join(', ' + p for p in c['params'])))
+            o.append('}')
+            o.append('END')
+            o.append('')
+        if r.chance(1, 3):
+            self.feat.add('epilogue')
+            o += ['extern "C" %{', 'static int pv_unused_epilogue(void) { return 0; }', '%}', '']
+        return '\n'.join(o) + '\n'
+
+
+def gen_program(rng, strict=False):
+    """strict: the program draws no warning at all (it must be accepted under --Werror too)"""
+    g = _Gen(rng)
+    g.strict = strict
+    g.datas = ['A', 'B'] if (rng.chance(1, 3) and not strict) else ['A']
+    txt = g.program()
+    # CTL flows without any dependency are useless but legal; READ flows were completed
+    return txt, sorted(g.feat)
+
+
+# ------------------------------------------------------------------ near-valid programs: one damage
+def damage(rng, txt):
+    """One syntactic or semantic damage applied to a valid program.  Returns (text, name of the damage).
+    The result may still be a valid program: the oracle does not assume it is not."""
+    lines = txt.split('\n')
+    idx = [i for i, l in enumerate(lines) if l.strip()]
+    k = rng.below(22)
+
+    def sub(pat, rep, count=1, pick=True):
+        ms = list(re.finditer(pat, txt))
+        if not ms:
+            return None
+        m = rng.choice(ms) if pick else ms[0]
+        return txt[:m.start()] + m.expand(rep) + txt[m.end():]
+    out, name = None, None
+    if k == 0:
+        name, out = 'drop-close-paren', sub(r'\)', '')
+    elif k == 1:
+        name, out = 'drop-open-paren', sub(r'\(', '')
+    elif k == 2:
+        name, out = 'unknown-task', sub(r'(<-|->)([^\n]*?)\b([A-Z]) (T\d|POTRF|GEMM|bcast)\(', r'\1\2\3 NOSUCH(')
+    elif k == 3:
+        name, out = 'unknown-flow', sub(r'\b([XYZVWU]) (T\d|POTRF|GEMM|bcast)\(', r'Q \2(')
+    elif k == 4:
+        name, out = 'undefined-variable', sub(r'\b(k|m|n)\b(?=[^\n]*\n)', 'undefvar')
+    elif k == 5:
+        m = re.search(r'\n(T\d|POTRF|GEMM|bcast)\((.|\n)*?\nEND\n', txt)
+        name, out = 'duplicate-task-class', (txt + m.group(0)) if m else None
+    elif k == 6:
+        name, out = 'duplicate-global', txt.replace('NT  [type = int]', 'NT  [type = int]\nNT  [type = int]', 1)
+    elif k == 7:
+        name, out = 'drop-END', sub(r'\nEND\n', '\n')
+    elif k == 8:
+        name, out = 'drop-BODY', sub(r'\nBODY\n', '\n')
+    elif k == 9:
+        name, out = 'param-without-definition', sub(r'\n(T\d|POTRF|GEMM|bcast)\(k', r'\n\1(zz, k')
+    elif k == 10:
+        name, out = 'data-arity', sub(r'\bA\(([^()\n]*), ([^()\n]*)\)', r'A(\1)')
+    elif k == 11:
+        name, out = 'read-flow-without-input', sub(r'\n  (READ|RO)  ([XYZVWU]) <-[^\n]*(\n +<-[^\n]*)*', r'\n  READ  \2 ')
+    elif k == 12:
+        name, out = 'ctl-refers-to-data', sub(r'\n  CTL   ([XYZVWU]) [^\n]*', r'\n  CTL   \1 <- A(0, 0)')
+    elif k == 13:
+        name, out = 'new-as-output', sub(r'-> [^\n]*', '-> NEW')
+    elif k == 14:
+        name, out = 'unterminated-string', sub(r'\[type = int\]', '[type = "int]')
+    elif k == 15:
+        i = rng.choice(idx)
+        c = rng.below(max(1, len(lines[i])))
+        lines[i] = lines[i][:c] + rng.choice(['@', '$', '`', '\\', '#', '~', '{', '}', ']', '[']) + lines[i][c:]
+        name, out = 'garbage-char', '\n'.join(lines)
+    elif k == 16:
+        name, out = 'truncated', txt[:rng.range(len(txt) // 4, len(txt) - 2)]
+    elif k == 17:
+        name, out = 'flow-shadows-global', sub(r'\n  (RW|READ|RO|WRITE|WO|CTL)?\s+([XYZVWU]) ', r'\n  \1 NT ')
+    elif k == 18:
+        i = rng.choice(idx)
+        name, out = 'drop-line', '\n'.join(lines[:i] + lines[i + 1:])
+    elif k == 19:
+        i = rng.choice(idx)
+        name, out = 'duplicate-line', '\n'.join(lines[:i + 1] + lines[i:])
+    elif k == 20:
+        name, out = 'two-data-ternary', sub(r'(<-|->) ([^\n?]*) \? (A\([^\n]*\))\n', r'\1 \2 ? \3 : \3\n')
+    else:
+        toks = list(re.finditer(r'\S+', txt))
+        a = rng.choice(toks)
+        name, out = 'drop-token', txt[:a.start()] + txt[a.end():]
+    if out is None or out == txt:
+        i = rng.choice(idx)
+        name, out = 'drop-line', '\n'.join(lines[:i] + lines[i + 1:])
+    return out, name
+
+
+# ------------------------------------------------------------------ shapes: generator, independent oracle
+def D(out, g='b', a=0, b=0, c=0):
+    return {'out': out, 'g': g, 'a': a, 'b': b, 'c': c}
+
+
+def FL(acc, nin, nout, gin='b', gout='b'):
+    """a flow with nin inputs and nout outputs of the given guard kinds (the last input is unconditional)"""
+    if acc == 'w':
+        ins = [D(False, 'u') for _ in range(nin)]
+    else:
+        ins = [D(False, gin) for _ in range(max(nin - 1, 0))] + ([D(False, 'u' if gin != 't' else 't')] if nin else [])
+    return {'acc': acc, 'deps': ins + [D(True, gout) for _ in range(nout)]}
+
+
+def F(nl, flows, ll=0):
+    return {'nl': nl, 'll': ll, 'flows': flows}
+
+
+def boundary_shapes(L):
+    """hand-made shapes on each side of every limit and of every branch of the decision logic"""
+    P, LO, I, O = L['maxParam'], L['maxLocal'], L['maxDepIn'], L['maxDepOut']
+    S = []
+    S.append(('small', [F(2, [FL('x', 1, 1)])]))
+    for d in (-1, 0, 1, 4):
+        S.append(('din%+d' % d, [F(1, [FL('r', I + d, 1)])]))
+        S.append(('dout%+d' % d, [F(1, [FL('x', 1, O + d)])]))
+    S.append(('din+1 ctl', [F(1, [FL('c', I + 1, 1)])]))
+    S.append(('dout+1 write', [F(1, [FL('w', 1, O + 1)])]))
+    S.append(('din+1 dout+1 same flow', [F(1, [FL('x', I + 1, O + 1)])]))
+    S.append(('din+1 second class', [F(1, [FL('x', 1, 1)]), F(1, [FL('x', 1, 1), FL('r', I + 1, 0)])]))
+    for d in (-1, 0, 1):
+        S.append(('read flows%+d' % d, [F(1, [FL('r', 1, 0) for _ in range(P + d)])]))
+        S.append(('write flows%+d' % d, [F(1, [FL('w', 0, 1) for _ in range(P + d)])]))
+        S.append(('rw flows%+d' % d, [F(1, [FL('x', 1, 1) for _ in range(P + d)])]))
+        S.append(('locals%+d' % d, [F(LO + d, [FL('x', 1, 1)])]))
+    S.append(('mixed flows +1 (read, write <= limit)', [F(1, [FL('r', 1, 0) for _ in range(P // 2 + 1)] + [FL('w', 0, 1) for _ in range(P - P // 2)])]))
+    S.append(('ctl flows +1', [F(1, [FL('c', 1, 1) for _ in range(P + 1)])]))
+    S.append(('ctl+data flows +1', [F(1, [FL('c', 1, 1) for _ in range(3)] + [FL('x', 1, 1) for _ in range(P - 2)])]))
+    # locals + local definitions
+    S.append(('locals+ldef =limit', [F(LO - 3, [{'acc': 'x', 'deps': [D(False, 'u'), D(True, 'b', 1, 1)]}], ll=1)]))
+    S.append(('locals+ldef +1', [F(LO - 2, [{'acc': 'x', 'deps': [D(False, 'u'), D(True, 'b', 1, 1)]}], ll=1)]))
+    S.append(('locals+ldef(dep only) +1', [F(LO - 1, [{'acc': 'x', 'deps': [D(False, 'u'), D(True, 'b', 2, 0)]}])]))
+    S.append(('locals+ldef in second class', [F(LO + 1, [FL('x', 1, 1)]), F(LO + 1, [FL('x', 1, 1)]), F(2, [FL('x', 1, 1)])]))
+    S.append(('ldef ternary false branch counts', [F(LO - 1, [{'acc': 'x', 'deps': [D(False, 'u'), D(True, 't', 0, 0, 2)]}])]))
+    # ternaries: two runtime entries for one counted dependency
+    S.append(('ternary out x%d' % (O // 2), [F(1, [FL('x', 1, O // 2, gout='t')])]))
+    S.append(('ternary out x%d' % (O // 2 + 1), [F(1, [FL('x', 1, O // 2 + 1, gout='t')])]))
+    S.append(('ternary out x%d' % O, [F(1, [FL('x', 1, O, gout='t')])]))
+    S.append(('ternary out x%d' % (O + 1), [F(1, [FL('x', 1, O + 1, gout='t')])]))
+    S.append(('ternary in x%d' % (I // 2 + 1), [F(1, [FL('r', I // 2 + 1, 1, gin='t')])]))
+    # local definitions of the true branch of a ternary
+    S.append(('ternary true ldef only', [F(1, [{'acc': 'x', 'deps': [D(False, 'u'), D(True, 't', 0, 2, 0)]}])]))
+    S.append(('ternary true ldef + other ldef', [F(LO - 1, [{'acc': 'x', 'deps': [D(False, 'u'), D(True, 'b', 1, 0), D(True, 't', 0, 2, 0)]}])]))
+    S.append(('ternary true ldef < false ldef', [F(2, [{'acc': 'x', 'deps': [D(False, 'u'), D(True, 't', 0, 1, 2)]}])]))
+    # dependency index masks of jdf_flatten_function
+    def outs(*ns):
+        return [F(1, [FL('x', 1, n) for n in ns])]
+
+    def ins(*ns):
+        return [F(1, [FL('x', n, 1) for n in ns])]
+    S.append(('out index 23', outs(8, 8, 7)))
+    S.append(('out index 24', outs(8, 8, 8)))
+    S.append(('out index 31', outs(8, 8, 7, 8)))
+    S.append(('out index 23 then 32', outs(8, 8, 7, 9)))
+    S.append(('out index 23 then 33', outs(8, 8, 7, 10)))
+    S.append(('out index window hit later', outs(8, 8, 7, 10, 10, 10)))
+    S.append(('in index 28', ins(10, 10, 8)))
+    S.append(('in index 29', ins(10, 10, 9)))
+    S.append(('in index 28 then 38', ins(10, 10, 8, 10)))
+    S.append(('parse reject in class 1, locals in class 0', [F(LO + 1, [FL('x', 1, 1)]), F(1, [FL('x', 1, 8), FL('x', 1, 8), FL('x', 1, 8)])]))
+    return S
+
+
+def random_shape(rng, L):
+    """random shape, biased to sit near one or two limits"""
+    P, LO, I, O = L['maxParam'], L['maxLocal'], L['maxDepIn'], L['maxDepOut']
+    funcs = []
+    for _ in range(rng.choice([1, 1, 2, 3])):
+        big = rng.below(8)
+        nfl = rng.choice([1, 2, 3, 4]) if big != 0 else rng.range(P - 1, P + 2)
+        flows = []
+        for i in range(nfl):
+            acc = rng.choice(['x', 'x', 'r', 'w', 'c'])
+            nin = rng.choice([0, 1, 1, 2, 3]) if big != 1 else rng.range(I - 1, I + 2)
+            nout = rng.choice([0, 1, 1, 2, 3]) if big != 2 else rng.range(O - 1, O + 2)
+            if nfl > 6:
+                nin, nout = min(nin, 1), min(nout, 1)
+            deps = []
+            for n in range(nin + nout):
+                out = n >= nin
+                g = rng.choice(['u', 'b', 'b', 'b', 't'])
+                if g == 'u' and not out and n != nin - 1:
+                    g = 'b'
+                a = rng.choice([0, 0, 0, 1, 2])
+                b = rng.choice([0, 0, 0, 1, 2])
+                c = rng.choice([0, 0, 1, 2]) if g == 't' else 0
+                deps.append(D(out, g, a, b, c))
+            flows.append({'acc': acc, 'deps': deps})
+        nl = rng.choice([1, 2, 3, 5]) if big != 3 else rng.range(LO - 3, LO + 1)
+        ll = rng.choice([0, 0, 1, 2])
+        funcs.append(F(nl, flows, ll))
+    return repair(funcs)
+
+
+def repair(funcs):
+    """minimal changes that make a shape renderable (see `renderable`)"""
+    for f in funcs:
+        f['nl'] = max(f['nl'], 1)
+        f['ll'] = min(f['ll'], f['nl'] - 1)
+        for fl in f['flows']:
+            for d in fl['deps']:
+                if d['g'] != 't':
+                    d['c'] = 0
+                if fl['acc'] == 'w' and not d['out']:
+                    d.update(g='u', a=0, b=0, c=0)
+            for _ in range(2):
+                nin = sum(1 for d in fl['deps'] if not d['out'])
+                nout = len(fl['deps']) - nin
+                if fl['acc'] in 'rx' and nin == 0:
+                    fl['deps'].insert(0, D(False, 'u'))
+                    continue
+                tt = any(_task_target(fl, d) for d in fl['deps'])
+                if tt and nin == 0:
+                    fl['deps'].insert(0, D(False, 'u') if fl['acc'] != 'c' else D(False, 'b'))
+                if tt and nout == 0:
+                    fl['deps'].append(D(True, 'b'))
+            for d in fl['deps']:
+                if d['g'] == 'u' and _task_target(fl, d) and (d['a'] > 0) != (d['b'] > 0):
+                    d['g'] = 'b'
+    return funcs
+
+
+def oracle_exceeds(funcs, L):
+    """The limits of the property statement, read off the runtime structures (parsec_internal.h):
+    locals[MAX_LOCAL_COUNT] (locals + every ldef slot in use at the same time), data/in/out[MAX_PARAM_COUNT]
+    (one slot per flow), dep_in[MAX_DEP_IN_COUNT] / dep_out[MAX_DEP_OUT_COUNT] (one slot per call: a ternary
+    dependency fills two), dependency indexes within the 24 / 29 bit masks.  Returns the list of reasons."""
+    why = []
+    for j, f in enumerate(funcs):
+        need = 0
+        tin = tout = 0
+        for i, fl in enumerate(f['flows']):
+            ein = eout = 0
+            for d in fl['deps']:
+                n = 2 if d['g'] == 't' else 1
+                if d['out']:
+                    eout += n
+                    tout += 1
+                else:
+                    ein += n
+                    tin += 1
+                need = max(need, d['a'] + (max(d['b'], d['c']) if d['g'] == 't' else d['b']))
+            if ein > L['maxDepIn']:
+                why.append('dep_in:%d.%d:%d' % (j, i, ein))
+            if eout > L['maxDepOut']:
+                why.append('dep_out:%d.%d:%d' % (j, i, eout))
+        if f['nl'] + f['ll'] + need > L['maxLocal']:
+            why.append('locals:%d:%d' % (j, f['nl'] + f['ll'] + need))
+        if len(f['flows']) > L['maxParam']:
+            why.append('flows:%d:%d' % (j, len(f['flows'])))
+        if tout >= 24:
+            why.append('outmask:%d:%d' % (j, tout))
+        if tin >= 29:
+            why.append('inmask:%d:%d' % (j, tin))
+    return why
+
+
+def counted(funcs, L):
+    """what ptgpp counts (used only to name the root cause of an accepted over-limit program)"""
+    r = {'deps': False, 'rdwr': False, 'flows': False, 'locals': False, 'window': False}
+    for f in funcs:
+        ci = co = 0
+        nb = f['ll']
+        for fl in f['flows']:
+            di = sum(1 for d in fl['deps'] if not d['out'])
+            do = len(fl['deps']) - di
+            ci, co = ci + di, co + do
+            if 29 <= ci < 32 or 24 <= co < 32:
+                r['window'] = True
+            if di > L['maxDepIn'] or do > L['maxDepOut']:
+                r['deps'] = True
+            for d in fl['deps']:
+                nb = max(nb, f['ll'] + d['a'], f['ll'] + d['a'] + (d['c'] if d['g'] == 't' else d['b']))
+        if f['nl'] + nb > L['maxLocal']:
+            r['locals'] = True
+        if len(f['flows']) > L['maxParam']:
+            r['flows'] = True
+        if sum(1 for fl in f['flows'] if fl['acc'] in 'rx') > L['maxParam'] or sum(1 for fl in f['flows'] if fl['acc'] in 'wx') > L['maxParam']:
+            r['rdwr'] = True
+    return r
+
+
+# ------------------------------------------------------------------ one case on the real compiler
+SAN_RE = re.compile(r'^.*(ERROR: AddressSanitizer[^\n]*|runtime error:[^\n]*|#ptgpp-hang).*$', re.M)
+SAN_ENV = {'ASAN_OPTIONS': 'detect_leaks=0:abort_on_error=0:exitcode=86', 'UBSAN_OPTIONS': 'print_stacktrace=0'}
+
+
+def read_limits(build):
+    txt = open(os.path.join(build, 'parsec', 'include', 'parsec', 'parsec_options.h')).read()
+    g = lambda n: int(re.search(r'#define\s+%s\s+(\d+)' % n, txt).group(1))
+    return {'maxParam': g('MAX_PARAM_COUNT'), 'maxLocal': g('MAX_LOCAL_COUNT'), 'maxDepIn': g('MAX_DEP_IN_COUNT'), 'maxDepOut': g('MAX_DEP_OUT_COUNT')}
+
+
+def observe(env, name, text, flags):
+    """Run the case: the real parsec-ptgpp twice, the instrumented copy once, the C compiler on accepted output."""
+    d = os.path.join(env['dir'], name)
+    os.makedirs(d, exist_ok=True)
+    jdf = os.path.join(d, name + '.jdf')
+    with open(jdf, 'w') as f:
+        f.write(text)
+    r1 = run_ptgpp(env['ptgpp'], jdf, os.path.join(d, name), flags)
+    d2 = os.path.join(d, 'second')
+    os.makedirs(d2, exist_ok=True)
+    r2 = run_ptgpp(env['ptgpp'], jdf, os.path.join(d2, name), flags)
+    ds = os.path.join(d, 'san')
+    os.makedirs(ds, exist_ok=True)
+    rs = run_ptgpp(env['san'], jdf, os.path.join(ds, name), flags, env=SAN_ENV)
+    o = {'name': name, 'flags': list(flags), 'jdf': jdf, 'r': r1, 'text': text}
+    o['same'] = all(r1[k] == r2[k] for k in ('rc', 'sig', 'out', 'err', 'c', 'h'))
+    o['san'] = sorted(set(m.group(1) for m in SAN_RE.finditer(rs['err'])))
+    if rs['sig'] and not o['san']:
+        o['san'] = ['instrumented copy killed by signal %d' % rs['sig']]
+    o['san_same'] = bool(o['san']) or (rs['rc'] == r1['rc'] and rs['c'] == r1['c'] and rs['h'] == r1['h'])
+    o['cc'] = None
+    if r1['rc'] == 0 and r1['sig'] == 0:
+        if r1['c'] is None or r1['h'] is None:
+            o['cc'] = (False, 'no output file although exit status 0')
+        else:
+            o['cc'] = cc_syntax(env['build'], os.path.join(d, name + '.c'))
+    return o
+
+
+W_RE = [
+    (re.compile(r'Function T(\d+): flow F(\d+) has too many \((\d+)\) input dependencies'), 'din'),
+    (re.compile(r'Function T(\d+): flow F(\d+) has too many \((\d+)\) output dependencies'), 'dout'),
+    (re.compile(r'Function T(\d+): has too many \((\d+)\) input or READ flows'), 'rd'),
+    (re.compile(r'Function T(\d+): has too many \((\d+)\) output or WRITE flows'), 'wr'),
+]
+RANK_W = {'din': 0, 'dout': 0, 'rd': 1, 'wr': 2}
+RANK_E = {'flows': 0, 'unused': 0.5, 'din': 1, 'dout': 1, 'rd': 2, 'wr': 3, 'noldef': 4, 'other': 5}
+
+
+def _fmt(items, rank):
+    def key(t):
+        k, f, fl, n = t
+        return (f, rank[k], fl if fl is not None else 0, 0 if k in ('din',) else 1)
+    out = []
+    for k, f, fl, n in sorted(items, key=key):
+        if k in ('din', 'dout'):
+            out.append('%s:%d.%d:%d' % (k, f, fl, n))
+        elif k in ('noldef',):
+            out.append('%s:%d' % (k, f))
+        elif k == 'other':
+            out.append('other')
+        else:
+            out.append('%s:%d:%d' % (k, f, n))
+    return '[' + ' '.join(out) + ']'
+
+
+def limit_warnings(err):
+    ws = []
+    for rx, k in W_RE:
+        for m in rx.finditer(err):
+            g = [int(x) for x in m.groups()]
+            ws.append((k, g[0], g[1], g[2]) if len(g) == 3 else (k, g[0], None, g[1]))
+    return ws
+
+
+def fired_errors(o, L):
+    """which `#if MAX_… < n / #error` blocks of the emitted files fire, and other compiler errors"""
+    es = []
+    h = (o['r']['h'] or b'').decode(errors='replace')
+    c = (o['r']['c'] or b'').decode(errors='replace')
+    for m in re.finditer(r'#if MAX_LOCAL_COUNT < (\d+)\s+/\* number of parameters and locals T(\d+) \*/', h):
+        if L['maxLocal'] < int(m.group(1)):
+            es.append(('locals', int(m.group(2)), None, int(m.group(1))))
+    for m in re.finditer(r'#if MAX_PARAM_COUNT < (\d+)\s+/\* total number of flows for task T(\d+) \*/', h):
+        if L['maxParam'] < int(m.group(1)):
+            es.append(('flows', int(m.group(2)), None, int(m.group(1))))
+    nunused = 0
+    for m in re.finditer(r'parsec_data_pair_t unused\[MAX_LOCAL_COUNT-(\d+)\];\s*\} __parsec_\w+?_T(\d+)_data_t;', h):
+        if L['maxLocal'] < int(m.group(1)):
+            es.append(('unused', int(m.group(2)), None, int(m.group(1))))
+            nunused += 1
+    pend = []
+    for m in re.finditer(r'#if (MAX_DEP_IN_COUNT|MAX_DEP_OUT_COUNT) < (\d+)|static const parsec_flow_t flow_of_\w+?_T(\d+)_for_F(\d+) =', c):
+        if m.group(1):
+            pend.append((m.group(1), int(m.group(2))))
+        else:
+            for which, n in pend:
+                if which == 'MAX_DEP_IN_COUNT' and L['maxDepIn'] < n:
+                    es.append(('din', int(m.group(3)), int(m.group(4)), n))
+                if which == 'MAX_DEP_OUT_COUNT' and L['maxDepOut'] < n:
+                    es.append(('dout', int(m.group(3)), int(m.group(4)), n))
+            pend = []
+    for m in re.finditer(r'#if MAX_PARAM_COUNT < (\d+)\s+/\* number of (read|write) flows of T(\d+) \*/', c):
+        if L['maxParam'] < int(m.group(1)):
+            es.append(('rd' if m.group(2) == 'read' else 'wr', int(m.group(3)), None, int(m.group(1))))
+    ccerr = o['cc'][1] if o['cc'] else ''
+    nerr = 0
+    noldef = set()
+    for ln in ccerr.splitlines():
+        if ' error: ' in ln or 'fatal error: ' in ln:
+            if '#error' in ln:
+                nerr += 1
+            elif "size of array 'unused' is negative" in ln.replace('\u2018', "'").replace('\u2019', "'") and nunused > 0:
+                nunused -= 1
+            else:
+                m = re.search(r"_T(\d+)_assignment_s\W.*has no member named .ldef.", ln)
+                if m:
+                    noldef.add(int(m.group(1)))
+                else:
+                    es.append(('other', 10 ** 6, None, 0))
+    for f in sorted(noldef):
+        es.append(('noldef', f, None, 0))
+    fired = len([e for e in es if e[0] not in ('other', 'noldef', 'unused')])
+    if o['cc'] and nerr != fired and not o['cc'][0]:
+        es.append(('other', 10 ** 6, None, 0))      # the compiler saw another number of #error than the blocks say
+    return es
+
+
+def observed_outcome(o, L):
+    """the run, in the vocabulary of the model (lean/ParsecVerif/Model/JdfLimits.lean, Outcome.str)"""
+    r = o['r']
+    if r['sig']:
+        return 'signal-%d' % r['sig']
+    ws = _fmt(limit_warnings(r['err']), RANK_W)
+    if r['rc'] != 0:
+        m = re.search(r'Function T(\d+) has too many input or output flow with different datatypes', r['err'])
+        if m:
+            return 'reject-parse f=%s' % m.group(1)
+        m = re.search(r'Task class T(\d+) uses (\d+) locals', r['err'])
+        if m:
+            return 'reject-gen f=%s warn=%s' % (m.group(1), ws)
+        if '--Werror' in o['flags'] and 'rror' not in r['err'].replace('--Werror', ''):
+            return 'reject-sanity warn=%s' % ws
+        return 'reject-other rc=%s' % r['rc']
+    es = fired_errors(o, L)
+    if o['cc'][0] and not es:
+        return 'emit-ok warn=%s' % ws
+    if o['cc'][0]:
+        return 'emit-ok-but-error-blocks warn=%s cerr=%s' % (ws, _fmt(es, RANK_E))
+    return 'emit-bad warn=%s cerr=%s' % (ws, _fmt(es, RANK_E))
